@@ -13,7 +13,9 @@ What is evaluated on the real code for every input (language, seed, option switc
                 src.generators.config.cfg AFTER the generator module has been imported, as src/args.py does)
   no-exception  any exception of any stage (RecursionError at the interpreter's own recursion limit included) is a
                 violation; its kind is  <ExceptionType>@<innermost frame inside the repository: file:function>
-  termination   every input runs under a CPU-second budget (the run is killed and reported when it is exceeded)
+  termination   every stage runs under a deterministic step budget (generation: calls of Generator.generate_expr;
+                the other stages: calls of ASTVisitor.visit, relative to the size of the program) and the whole input
+                under a last-resort CPU alarm; exceeding either is reported (a budget, not a proof of termination)
   erasure work  TypeErasure examines, per function, at most  max_combinations + 1  combinations after the
                 one-per-candidate filtering pass (the budget the statement's anchor names); counted on the real
                 src.analysis.type_dependency_analysis.is_combination_feasible
@@ -66,6 +68,12 @@ def g_compound(max_depth):
 def erasure_budget(max_combinations, candidates):
     """examined combinations per function: the candidates' filtering pass + (max_combinations + 1)"""
     return candidates + max_combinations + 1
+
+
+GEN_STEP_CAP = 50000         # calls of Generator.generate_expr per program (largest seen on the fixed list: < 1000)
+VISIT_FACTOR = 50            # ASTVisitor.visit calls per stage <= VISIT_FACTOR * AST nodes + 10000
+RUNAWAY = 2000               # the erasure search is aborted this far beyond its budget (it is a finding at budget + 1)
+CPU_ALARM = 900              # last resort, seconds of user CPU per input
 
 
 COMPOUND = ('Conditional', 'FieldAccess', 'FunctionCall', 'LogicalExpr', 'EqualityExpr', 'ComparisonExpr',
@@ -158,7 +166,8 @@ def load(repo=None):
         'scala': importlib.import_module('src.translators.scala').ScalaTranslator,
     }
     M.initial_words = set(M.utils.random.INITIAL_WORDS)
-    M.counters = dict(generate_expr=0, windows=[])
+    M.visitors = importlib.import_module('src.ir.visitors')
+    M.counters = dict(generate_expr=0, windows=[], visits=0, visit_cap=0)
     _instrument(M)
     return M
 
@@ -170,8 +179,20 @@ def _instrument(M):
 
     def generate_expr(self, *a, **k):
         M.counters['generate_expr'] += 1
+        if M.counters['generate_expr'] > GEN_STEP_CAP:
+            raise Budget('generate_expr calls > %d' % GEN_STEP_CAP)
         return orig_ge(self, *a, **k)
     gen_cls.generate_expr = generate_expr
+
+    orig_visit = M.visitors.ASTVisitor.visit
+
+    def visit(self, node):
+        c = M.counters
+        c['visits'] += 1
+        if c['visit_cap'] and c['visits'] > c['visit_cap']:
+            raise Budget('ASTVisitor.visit calls > %d' % c['visit_cap'])
+        return orig_visit(self, node)
+    M.visitors.ASTVisitor.visit = visit
 
     orig_feas = M.tda.is_combination_feasible
 
@@ -181,6 +202,8 @@ def _instrument(M):
             combination = tuple(combination)
             w[-1]['calls'] += 1
             w[-1]['nodes'].update(combination)
+            if w[-1]['cap'] and w[-1]['calls'] > erasure_budget(w[-1]['cap'], len(w[-1]['nodes'])) + RUNAWAY:
+                raise Budget('combinations examined in %s > budget + %d' % (w[-1]['func'], RUNAWAY))
         return orig_feas(type_graph, combination)
     M.tda.is_combination_feasible = is_combination_feasible
 
@@ -188,7 +211,8 @@ def _instrument(M):
     orig_vfd = te.visit_func_decl
 
     def visit_func_decl(self, node):
-        win = dict(open=True, calls=0, nodes=set(), func=getattr(node, 'name', '?'))
+        win = dict(open=True, calls=0, nodes=set(), func=getattr(node, 'name', '?'),
+                   cap=getattr(self, 'max_combinations', 0))
         M.counters['windows'].append(win)
         try:
             return orig_vfd(self, node)
@@ -247,26 +271,37 @@ def _frame(M, exc):
     return inner, trail
 
 
-def run_task(M, t, cpu_budget=None):
+def run_task(M, t, cpu_alarm=CPU_ALARM):
     """runs the six stages on the real code; returns a record with measurements and a list of findings
     (kind, detail) -- empty iff the property holds on this input"""
     configure(M, t)
     lang = t['lang']
     md = t.get('max_depth', DEFAULT_DEPTH)
-    rec = dict(key=task_key(t), stage_done=[], findings=[], N=0, M=0, nodes=0)
-    topts = {'timeout': t.get('timeout', 600) if t.get('timeout') is not None else 600}
+    rec = dict(key=task_key(t), stage_done=[], findings=[], N=0, M=0, nodes=0, steps={})
+    topts = {'timeout': 600 if t.get('timeout') is None else t['timeout']}
     eopts = dict(topts)
     if t.get('max_combinations') is not None:
         eopts['max_combinations'] = t['max_combinations']
     maxc = eopts.get('max_combinations', DEFAULT_COMBINATIONS)
     r = M.utils.random
-    stage = 'setup'
+    C = M.counters
+    cur = ['setup']
     t0 = time.process_time()
-    if cpu_budget:
+
+    def stage(name, fn):
+        cur[0] = name
+        C['visits'] = 0
+        C['visit_cap'] = VISIT_FACTOR * rec['nodes'] + 10000 if name != STAGES[0] else 0
+        res = fn()
+        rec['stage_done'].append(name)
+        rec['steps'][name] = C['generate_expr'] if name == STAGES[0] else C['visits']
+        return res
+
+    if cpu_alarm:
         def _alarm(sig, frm):
-            raise Budget()
+            raise Budget('user CPU > %d s' % cpu_alarm)
         old = signal.signal(signal.SIGVTALRM, _alarm)
-        signal.setitimer(signal.ITIMER_VIRTUAL, cpu_budget)
+        signal.setitimer(signal.ITIMER_VIRTUAL, cpu_alarm)
     try:
         # hephaestus._run: reset_word_pool, two package names; gen_program: reset_word_pool, translator, generate
         r.reset_word_pool()
@@ -274,65 +309,61 @@ def run_task(M, t, cpu_budget=None):
         r.reset_word_pool()
         translator = M.translators[lang]('src.' + packages[0], {'cast_numbers': bool(t.get('cast_numbers'))})
         texts = []
-        stage = STAGES[0]
-        program = M.generator.Generator(language=lang, options={}).generate()
-        rec['stage_done'].append(stage)
-        rec['generate_expr_calls'] = M.counters['generate_expr']
+        program = stage(STAGES[0], lambda: M.generator.Generator(language=lang, options={}).generate())
         rec['N'], rec['M'], rec['nodes'], pn, pm = measure(M, program)
         if rec['N'] > f_nesting(md):
             rec['findings'].append(('nesting', dict(function='src.generators.generator.Generator.generate',
                                                     measured=rec['N'], bound=f_nesting(md), path=pn)))
         if rec['M'] > g_compound(md):
-            rec['findings'].append(('compound-nesting', dict(function='src.generators.generator.Generator.get_generators',
-                                                             measured=rec['M'], bound=g_compound(md), path=pm)))
-        stage = STAGES[1]
-        texts.append(M.utils.translate_program(translator, program))
-        rec['stage_done'].append(stage)
-        stage = STAGES[2]
-        te = M.erasure.TypeErasure(program, lang, None, eopts)
-        te.transform()
-        program = te.result()
-        rec['stage_done'].append(stage)
-        rec['erased'] = bool(te.is_transformed)
-        wins = M.counters['windows']
-        rec['erasure_functions'] = len(wins)
-        rec['erasure_max_calls'] = max([w['calls'] for w in wins] or [0])
-        if maxc:
-            for w in wins:
-                if w['calls'] > erasure_budget(maxc, len(w['nodes'])):
-                    rec['findings'].append(('erasure-budget', dict(
-                        function='src.transformations.type_erasure.TypeErasure.visit_func_decl', in_function=w['func'],
-                        examined=w['calls'], candidates=len(w['nodes']), max_combinations=maxc,
-                        bound=erasure_budget(maxc, len(w['nodes'])))))
-                    break
-        stage = STAGES[3]
-        texts.append(M.utils.translate_program(translator, program))
-        rec['stage_done'].append(stage)
-        stage = STAGES[4]
-        translator.package = 'src.' + packages[1]
-        to = M.overwriting.TypeOverwriting(program, lang, None, topts)
-        to.transform()
-        program = to.result()
-        rec['stage_done'].append(stage)
-        rec['injected'] = bool(to.is_transformed)
-        stage = STAGES[5]
-        texts.append(M.utils.translate_program(translator, program))
-        rec['stage_done'].append(stage)
-        n2 = measure(M, program)
-        rec['N_final'] = n2[0]
+            rec['findings'].append(('compound-nesting', dict(
+                function='src.generators.generator.Generator.get_generators', measured=rec['M'],
+                bound=g_compound(md), path=pm)))
+        texts.append(stage(STAGES[1], lambda: M.utils.translate_program(translator, program)))
+
+        def erase():
+            te = M.erasure.TypeErasure(program, lang, None, eopts)
+            try:
+                te.transform()
+            finally:
+                wins = C['windows']
+                rec['erasure_functions'] = len(wins)
+                rec['erasure_max_examined'] = max([w['calls'] for w in wins] or [0])
+                for w in wins:
+                    if maxc and w['calls'] > erasure_budget(maxc, len(w['nodes'])):
+                        rec['findings'].append(('erasure-budget', dict(
+                            function='src.transformations.type_erasure.TypeErasure.visit_func_decl',
+                            in_function=w['func'], examined=w['calls'], candidates=len(w['nodes']),
+                            max_combinations=maxc, bound=erasure_budget(maxc, len(w['nodes'])))))
+                        break
+            rec['erased'] = bool(te.is_transformed)
+            return te.result()
+        program = stage(STAGES[2], erase)
+        texts.append(stage(STAGES[3], lambda: M.utils.translate_program(translator, program)))
+
+        def overwrite():
+            translator.package = 'src.' + packages[1]
+            to = M.overwriting.TypeOverwriting(program, lang, None, topts)
+            to.transform()
+            rec['injected'] = bool(to.is_transformed)
+            return to.result()
+        program = stage(STAGES[4], overwrite)
+        texts.append(stage(STAGES[5], lambda: M.utils.translate_program(translator, program)))
+        rec['N_final'] = measure(M, program)[0]
         rec['text_sha'] = hashlib.sha256('\x00'.join(texts).encode()).hexdigest()[:16]
-    except Budget:
-        rec['findings'].append(('budget:' + stage, dict(function=_stage_function(stage), stage=stage,
-                                                         cpu_budget_s=cpu_budget)))
+    except Budget as b:
+        if not any(k == 'erasure-budget' for k, _ in rec['findings']):
+            rec['findings'].append(('budget:' + cur[0], dict(function=_stage_function(cur[0]), stage=cur[0],
+                                                            exceeded=str(b))))
     except Exception as exc:   # noqa: the property forbids every exception
         inner, trail = _frame(M, exc)
         where = '%s:%s' % (inner[0], inner[1]) if inner else 'outside-repo'
         rec['findings'].append(('exception:%s@%s' % (type(exc).__name__, where),
-                                dict(function=_stage_function(stage), stage=stage, exception=type(exc).__name__,
+                                dict(function=_stage_function(cur[0]), stage=cur[0], exception=type(exc).__name__,
                                      message=str(exc)[:200], innermost_repo_frame=list(inner) if inner else None,
                                      trail=trail)))
     finally:
-        if cpu_budget:
+        C['visit_cap'] = 0
+        if cpu_alarm:
             signal.setitimer(signal.ITIMER_VIRTUAL, 0)
             signal.signal(signal.SIGVTALRM, old)
     rec['cpu_s'] = round(time.process_time() - t0, 3)
@@ -368,14 +399,15 @@ def tasks_for(tier, seed):
         for s in range(1, n_default + 1):
             add(lang, s)
     # depth limits
-    depth_seeds = range(101, 103) if quick else range(101, 121)
+    depth_seeds = range(101, 102) if quick else range(101, 111)
     for lang in LANGS:
         for md in ((1, 2, 3, 4) if quick else (1, 2, 3, 4, 5, 7, 8)):
             for s in depth_seeds:
                 add(lang, s, max_depth=md)
     # option switches: quick = each alone + all; thorough = all 16 combinations (+ cast_numbers on the odd ones)
     if quick:
-        combos = [{k: True} for k in SWITCHES] + [dict({k: True for k in SWITCHES}, cast_numbers=True)]
+        combos = [{SWITCHES[0]: True}, {SWITCHES[2]: True, SWITCHES[3]: True},
+                  dict({k: True for k in SWITCHES}, cast_numbers=True)]
         sw_seeds = range(201, 202)
     else:
         combos = []
@@ -384,17 +416,18 @@ def tasks_for(tier, seed):
             if bits % 2:
                 c['cast_numbers'] = True
             combos.append(c)
-        sw_seeds = range(201, 209)
+        sw_seeds = range(201, 205)
     for lang in LANGS:
         for c in combos:
             for s in sw_seeds:
                 add(lang, s, **c)
     # transformation options: a small combination budget, an (already expired) visitor timeout
     for lang in LANGS:
-        for s in (range(301, 305) if quick else range(301, 341)):
+        for s in (range(301, 303) if quick else range(301, 321)):
             add(lang, s, max_combinations=1 + s % 2)
         for s in (range(401, 402) if quick else range(401, 405)):
-            add(lang, s, timeout=0)
+            if not quick or lang in ('java', 'kotlin'):
+                add(lang, s, timeout=0)
     # switches x depth, thorough only
     if not quick:
         for lang in LANGS:
@@ -404,7 +437,7 @@ def tasks_for(tier, seed):
                         **{k: True for k in SWITCHES})
     rnd = random.Random(seed)
     for lang in LANGS:
-        for _ in range(2 if quick else 20):
+        for _ in range(1 if quick else 20):
             add(lang, rnd.randrange(1000, 10 ** 9))
         for _ in range(1 if quick else 10):
             add(lang, rnd.randrange(1000, 10 ** 9), max_depth=rnd.choice([1, 2, 3, 4, 5]),
@@ -413,7 +446,6 @@ def tasks_for(tier, seed):
     return T
 
 
-CPU_BUDGET = {'quick': 30, 'thorough': 120}
 _W = {}
 
 
@@ -422,9 +454,9 @@ def _worker_init(repo):
 
 
 def _worker(args):
-    t, budget = args
+    t = args
     try:
-        return t, run_task(_W['M'], t, budget)
+        return t, run_task(_W['M'], t)
     except BaseException as e:   # harness problem, not a verdict
         return t, dict(key=task_key(t), harness_error=repr(e) + traceback.format_exc()[-600:], findings=[],
                        stage_done=[], N=0, M=0, nodes=0, cpu_s=0)
@@ -433,7 +465,6 @@ def _worker(args):
 def run(tier, seed, stop_first=False, workers=None):
     repo = os.environ.get('HEPH_REPO', '/repo')
     tasks = tasks_for(tier, seed)
-    budget = CPU_BUDGET['quick' if tier == 'quick' else 'thorough']
     if workers is None:
         workers = int(os.environ.get('VERIF_WORKERS', '0') or 0) or min(8, os.cpu_count() or 1)
     t0 = time.time()
@@ -441,14 +472,14 @@ def run(tier, seed, stop_first=False, workers=None):
     if workers <= 1:
         _worker_init(repo)
         for t in tasks:
-            results.append(_worker((t, budget)))
+            results.append(_worker(t))
             if stop_first and results[-1][1]['findings']:
                 break
     else:
         import multiprocessing as mp
         ctx = mp.get_context('fork')
         with ctx.Pool(workers, initializer=_worker_init, initargs=(repo,)) as pool:
-            for res in pool.imap(_worker, [(t, budget) for t in tasks], chunksize=1):
+            for res in pool.imap(_worker, tasks, chunksize=1):
                 results.append(res)
                 if stop_first and res[1]['findings']:
                     pool.terminate()
@@ -469,10 +500,13 @@ def run(tier, seed, stop_first=False, workers=None):
         stats['max_M'] = max(stats['max_M'], rec['M'])
         stats['max_nodes'] = max(stats['max_nodes'], rec['nodes'])
         stats['max_generate_expr_calls'] = max(stats['max_generate_expr_calls'], rec.get('generate_expr_calls', 0))
-        stats['max_erasure_calls'] = max(stats['max_erasure_calls'], rec.get('erasure_max_calls', 0))
+        stats['max_erasure_calls'] = max(stats['max_erasure_calls'], rec.get('erasure_max_examined', 0))
         stats['erased'] += bool(rec.get('erased'))
         stats['injected'] += bool(rec.get('injected'))
         stats['max_cpu_s'] = max(stats['max_cpu_s'], rec['cpu_s'])
+        for st, n in rec.get('steps', {}).items():
+            if st != STAGES[0] and rec['nodes']:
+                stats['max_visits_per_node'] = max(stats.get('max_visits_per_node', 0), round(n / rec['nodes'], 1))
         d = stats['by_depth'].setdefault(str(md), dict(inputs=0, max_N=0, f=f_nesting(md), max_M=0, g=g_compound(md)))
         d['inputs'] += 1
         d['max_N'] = max(d['max_N'], rec['N'])
@@ -497,7 +531,8 @@ def run(tier, seed, stop_first=False, workers=None):
         rule=('%d inputs (language x seed x switches x depth limit; fixed list + VERIF_SEED extension) each through the '
               '6 stages generate, translate, TypeErasure, translate, TypeOverwriting, translate of the real code with '
               'cfg applied after import as src/args.py does; checked per input: no exception in any stage (kind = type '
-              '@ innermost repository frame; interpreter recursion limit %d untouched), CPU budget %d s, TypeErasure '
+              '@ innermost repository frame; interpreter recursion limit %d untouched), step budgets (generate_expr calls '
+              '<= %d; ASTVisitor.visit calls per later stage <= %d * nodes + 10000; last-resort alarm %d s user CPU), TypeErasure '
               'examines <= candidates + max_combinations + 1 combinations per function, expression nesting '
               'N <= f(d) = 2d+6 and compound nesting M <= g(d) = max(0, d-2) for depth limit d (derivation in '
               'specs/pipeline_ref.py: depth counter starts at 1, +1 per declaration, >= +1 per nested expression '
@@ -506,7 +541,7 @@ def run(tier, seed, stop_first=False, workers=None):
               'N >= 2; distinct by input key and text of the three translations. Not checkable in this domain: '
               '"for every seed" (finite list), absolute termination (budget only), the visitor timeout (it only sets '
               'a flag after the visitor has returned; exercised with timeout=0)'
-              % (len(results), sys.getrecursionlimit(), budget)),
+              % (len(results), sys.getrecursionlimit(), GEN_STEP_CAP, VISIT_FACTOR, CPU_ALARM)),
         samples=samples, stats=stats, violations=violations, exhaustive=False,
         wall_s=round(time.time() - t0, 1), workers=workers)
     if harness_errors:
@@ -515,23 +550,21 @@ def run(tier, seed, stop_first=False, workers=None):
 
 
 def replay(fi, verbose=True):
-    """re-executes the recorded input on the current tree (HEPH_REPO); True iff no finding of the recorded kind"""
+    """re-executes the recorded input on the current tree (HEPH_REPO); True iff the property holds on it (no finding
+    of any kind); the recorded kind is printed first when it reproduces"""
     M = load(os.environ.get('HEPH_REPO', '/repo'))
-    t = fi['input']
-    rec = run_task(M, t, CPU_BUDGET['thorough'])
-    kind = fi.get('check', 'bounded[]')[len('bounded['):-1]
-    hits = [(k, d) for k, d in rec['findings'] if not kind or k == kind]
-    others = [(k, d) for k, d in rec['findings'] if (k, d) not in hits]
+    t = dict(fi['input'])
+    rec = run_task(M, t)
+    kind = (fi.get('check') or 'bounded[]')[len('bounded['):-1]
     if verbose:
-        for k, d in hits:
-            print('input %s: %s: %s' % (rec['key'], k, {a: b for a, b in d.items() if a != 'function'}))
-        for k, d in others:
-            print('input %s: (another finding on the same input) %s' % (rec['key'], k))
+        for k, d in sorted(rec['findings'], key=lambda kd: kd[0] != kind):
+            print('input %s: %s%s: %s' % (rec['key'], '' if k == kind or not kind else '(not the recorded kind) ', k,
+                                          {a: b for a, b in d.items() if a != 'function'}))
         if not rec['findings']:
-            print('input %s: all 6 stages ran, N=%d (<= %d), M=%d (<= %d)' % (
-                rec['key'], rec['N'], f_nesting(t.get('max_depth', DEFAULT_DEPTH)), rec['M'],
-                g_compound(t.get('max_depth', DEFAULT_DEPTH))))
-    return not rec['findings'] if not kind else not hits
+            md = t.get('max_depth', DEFAULT_DEPTH)
+            print('input %s: all 6 stages ran without exception and within budget, N=%d (<= %d), M=%d (<= %d)'
+                  % (rec['key'], rec['N'], f_nesting(md), rec['M'], g_compound(md)))
+    return not rec['findings']
 
 
 if __name__ == '__main__':
